@@ -7,6 +7,7 @@ import JanetModel.Bytecode.VMCallPasses
 import JanetModel.Spec.CallSite
 import JanetModel.Spec.FixedEmit
 import JanetModel.Spec.VariadicEmit
+import JanetModel.Spec.Emit
 
 /-!
 C15 - compiler specialisations of core functions preserve behaviour (theorems only).
@@ -785,6 +786,56 @@ theorem apply_eq_splice (X : CallPrims P) (s : List P.V) (lead : List Nat) (last
 /-- ★ the four nil fast paths regenerated from specials.c name equality-family rows with the matching jump sense -/
 theorem nil_fast_paths_consistent : nilFastPaths.length = 4 ∧ nilFastPaths.all nilPathOk = true := by
   decide +kernel
+
+/-- does the fast-path jump of a nil test LEAVE the then-branch / the loop when the tested value is `x` (reading of `VM.step`) -/
+def fastLeaves (jop : Op) (x : P.V) : Bool :=
+  match jop with
+  | .jumpIfNotNil => !P.isNil x
+  | .jumpIfNil => P.isNil x
+  | _ => false
+
+/-- the one instruction the fast path emits (`janetc_emit_si(c, ifnjmp, cond, 0, 0)`, offset patched later) goes to the jump target exactly
+    when `fastLeaves`, else falls through -/
+theorem fast_jump_step (jop : Op) (h : jop = .jumpIfNotNil ∨ jop = .jumpIfNil) (i : Instr) (hi : i.op = jop) (f : Frame P) :
+    step P i f = some (M.pure (.cont (if fastLeaves P jop (getSlot P f i.A) then jumpBy P f i.ES else next P f))) := by
+  rcases h with rfl | rfl
+  · simp only [step, hi, fastLeaves]
+    by_cases hn : P.isNil (getSlot P f i.A) = true <;> simp [hn]
+  · simp only [step, hi, fastLeaves]
+    rfl
+
+/-- ★ for each of the four nil fast paths regenerated from specials.c (`if` / `while` x `=` / `not=`): the head function's row is a
+    comparison row, and the value the ordinary (inline or generic) comparison `(f nil x)` / `(f x nil)` would compute is truthy exactly when
+    the fast-path jump does NOT leave - so `jmp<fast> x -> L` and `t := (f nil x); jmpno t -> L` take the same branch, for every `x`,
+    without calling anything (pure, world unchanged) -/
+theorem nil_fast_path_same_branch (hnil : ∀ x, P.eqv P.nil x = P.isNil x ∧ P.eqv x P.nil = P.isNil x) :
+    ∀ p ∈ nilFastPaths, ∃ r ∈ optimizers, r.tagName = p.2.1 ∧ ∃ op opim inv, r.handler = .compreduce op opim inv ∧
+      (p.2.2 = .jumpIfNotNil ∨ p.2.2 = .jumpIfNil) ∧
+      ∀ x, binop P op P.nil x = M.pure (ofBool P (!fastLeaves P p.2.2 x)) ∧ binop P op x P.nil = M.pure (ofBool P (!fastLeaves P p.2.2 x)) := by
+  intro p hp
+  have hok := List.all_eq_true.mp nil_fast_paths_consistent.2 p hp
+  unfold nilPathOk at hok
+  split at hok
+  · rename_i r hfind
+    split at hok
+    · rename_i op opim inv hh
+      refine ⟨r, List.mem_of_find?_eq_some hfind, ?_, op, opim, inv, hh, ?_⟩
+      · have := List.find?_some hfind
+        simpa using this
+      · simp only [Bool.or_eq_true, Bool.and_eq_true, beq_iff_eq] at hok
+        rcases hok with ⟨⟨hk, _⟩, hj⟩ | ⟨⟨hk, _⟩, hj⟩
+        · refine ⟨Or.inl hj, fun x => ?_⟩
+          simp [binop, binopK, hk, hj, fastLeaves, (hnil x).1, (hnil x).2]
+        · refine ⟨Or.inr hj, fun x => ?_⟩
+          simp [binop, binopK, hk, hj, fastLeaves, (hnil x).1, (hnil x).2]
+    · cases hok
+  · cases hok
+
+/-- non-vacuity: the hypothesis holds in the driver's concrete universe (integers, nil, booleans, tables), where `false` is not nil -/
+example : (∀ x, DP.eqv DP.nil x = DP.isNil x ∧ DP.eqv x DP.nil = DP.isNil x) ∧ fastLeaves DP .jumpIfNotNil (DV.bool false) = true ∧
+    fastLeaves DP .jumpIfNotNil DV.nil = false := by
+  refine ⟨fun x => ?_, rfl, rfl⟩
+  cases x <;> exact ⟨rfl, rfl⟩
 
 /-- what the fast path relies on: `(= nil x)` / `(= x nil)` is true exactly when `x` is nil, `not=` the opposite, so testing the
     operand with jump-if-(not-)nil decides the condition the specialised (and the generic) comparison would compute -/
